@@ -724,7 +724,9 @@ func runSystemOracle(o vh.Opts, rng *vh.RNG, rep *vh.Report, tmp string) {
 			cases = append(cases, sysCase{Shape: sh, Seed: int64(rng.U64() >> 2), SkipSort: i%2 == 0, Zstd: zs[i%4], DocBlock: []int{2048, 0, 512}[i%3], CacheKB: []int{4, 16, 1}[i%3], OnlyReq: -1})
 		}
 	} else {
-		cases = append(cases, sysCase{Shape: "bigdict", Seed: int64(rng.U64() >> 2), SkipSort: true, Zstd: 3, DocBlock: 1024, CacheKB: 4, OnlyReq: -1})
+		for i, sh := range []string{"bigdict", "lids64k", "ids-exact", "exactdict"} {
+			cases = append(cases, sysCase{Shape: sh, Seed: int64(rng.U64() >> 2), SkipSort: i%2 == 0, Zstd: zs[(i+1)%4], DocBlock: []int{1024, 0, 256}[i%3], CacheKB: []int{4, 16, 1}[i%3], OnlyReq: -1})
+		}
 	}
 	for _, c := range cases {
 		collect(orc, rep, c.String(), 10*time.Minute)
